@@ -332,6 +332,18 @@ impl Property for C13 {
                 for (t, (e, g)) in exp.params.iter().zip(got.params.iter()).enumerate() {
                     for (a, b) in e.iter().zip(g.iter()) {
                         if !super::c04::close(*a, *b, 1e-4) {
+                            // the property fixes no association of the gradient sum: is the
+                            // reference trainer's own result stable under re-association?
+                            for order in [super::c04::SumOrder::Reverse, super::c04::SumOrder::Pairwise] {
+                                let (probe, _) = run_env(&ref_env, |_| super::c04::with_sum_order(order, || super::c04::reference_trainer(sc, run as i32)));
+                                let stable = match &probe {
+                                    Ok(p) => p.params.iter().zip(exp.params.iter()).all(|(x, y)| x.iter().zip(y.iter()).all(|(u, v)| super::c04::close(*u, *v, 1e-5))),
+                                    Err(_) => false,
+                                };
+                                if !stable {
+                                    return Outcome::Degenerate("ill-conditioned: the reference trainer's own result depends on the association of the gradient sum".into());
+                                }
+                            }
                             return viol(
                                 "parameters_not_after_recorded_epochs",
                                 format!("{} epochs recorded, but parameter tensor {} is {:e} where {} epochs of training give {:e}", run, t, b, run, a),
